@@ -8,6 +8,7 @@ package mcp
 
 import (
 	"bufio"
+	"bytes"
 	"context"
 	"encoding/json"
 	"errors"
@@ -328,8 +329,8 @@ func (t *stdioClientTransport) readLoop() {
 	// newline). A syntax error is sticky in a decoder, so after malformed input the rest of the
 	// line the error is on is skipped and a fresh decoder carries on with the next line; when
 	// the stream itself fails the loop ends.
-	reader := bufio.NewReader(t.stdout)
-	dec := json.NewDecoder(reader)
+	input := &pushbackReader{src: bufio.NewReader(t.stdout)}
+	dec := json.NewDecoder(input)
 	for !t.closed.Load() {
 		var rawMessage json.RawMessage
 		if err := dec.Decode(&rawMessage); err != nil {
@@ -341,12 +342,11 @@ func (t *stdioClientTransport) readLoop() {
 				break
 			}
 			t.logger.Errorf("Error reading message: %v", err)
-			rest := bufio.NewReader(io.MultiReader(dec.Buffered(), reader))
-			if _, skipErr := rest.ReadBytes('\n'); skipErr != nil {
+			unread, _ := io.ReadAll(dec.Buffered())
+			if skipErr := input.skipLine(unread); skipErr != nil {
 				break
 			}
-			reader = rest
-			dec = json.NewDecoder(reader)
+			dec = json.NewDecoder(input)
 			continue
 		}
 
@@ -370,6 +370,36 @@ func (t *stdioClientTransport) readLoop() {
 			t.logger.Warnf("Unexpected message type: %s", msgType)
 		}
 	}
+}
+
+// pushbackReader is the read loop's input: the child's stdout, preceded by bytes that a decoder
+// had read ahead but not consumed when it was given up after a syntax error. One instance serves
+// the whole loop, so malformed lines cost nothing once they are skipped.
+type pushbackReader struct {
+	pending []byte
+	src     *bufio.Reader
+}
+
+func (p *pushbackReader) Read(b []byte) (int, error) {
+	if len(p.pending) > 0 {
+		n := copy(b, p.pending)
+		p.pending = p.pending[n:]
+		return n, nil
+	}
+	return p.src.Read(b)
+}
+
+// skipLine makes the input continue after the first newline of what has not been consumed yet:
+// unread (handed back by the decoder), then what was already pending, then the source.
+func (p *pushbackReader) skipLine(unread []byte) error {
+	rest := append(unread, p.pending...)
+	if i := bytes.IndexByte(rest, '\n'); i >= 0 {
+		p.pending = rest[i+1:]
+		return nil
+	}
+	p.pending = nil
+	_, err := p.src.ReadBytes('\n')
+	return err
 }
 
 // handleResponse handles JSON-RPC responses.
